@@ -333,6 +333,7 @@ type State struct {
 	Trace       []string
 	Base        string // name prefix of heap components not touched so far
 	PendingBase map[string]string
+	Aux         map[string]Term // values remembered by contracts (entry(e) of a loop): named, immutable, renamed at joins like locals
 }
 
 func (s *State) Clone() *State {
@@ -349,6 +350,12 @@ func (s *State) Clone() *State {
 	}
 	for k, v := range s.PendingBase {
 		n.PendingBase[k] = v
+	}
+	if s.Aux != nil {
+		n.Aux = make(map[string]Term, len(s.Aux))
+		for k, v := range s.Aux {
+			n.Aux[k] = v
+		}
 	}
 	for k, f := range s.Frames {
 		nf := &Frame{ID: f.ID, Fn: f.Fn, Regs: make(map[ssa.Value]Val, len(f.Regs)), Cells: make(map[*ssa.Alloc]Val, len(f.Cells)), Free: f.Free}
